@@ -76,6 +76,15 @@ class Model(object):
     def add_node(self, n, **attrs):
         self.nodes.setdefault(n, {}).update(attrs)
 
+    def clear(self, edges_only=False):
+        """G.clear() / G.clear_edges(): all interactions (and, for clear, nodes and graph attributes) are gone"""
+        self.P, self.orient, self.first = {}, {}, {}
+        self.accepted = set()
+        self.open1, self.unclosed = {}, {}
+        if not edges_only:
+            self.nodes = {}
+            self.graph = {}
+
     def apply(self, u, v, t, e=None):
         """record an ACCEPTED add_interaction(u, v, t, e)"""
         for n in (u, v):
